@@ -60,6 +60,8 @@ def cases(tier, seed):
             continue  # documented as not transformable
         sets = ["-"] if kind in ("line", "line_ext", "line_narrow", "circle") else (list(POINT_SETS) if tier == "thorough" else ["uneven6", "zigzag5"])
         for ps in sets:
+            if kind.startswith("spline") and ps == "three":
+                continue  # (a cubic spline needs four points; as in the first loop)
             for h in hist:
                 for pre in ((1,) if tier == "quick" else (0, 1)):
                     out.append({"kind": kind, "points": ps, "frame": frames[-1], "history": "".join(h), "pre": pre})
